@@ -216,7 +216,10 @@ class P:
             elif x == "?":
                 raise Unsupported("? operator")
             elif x == "[":
-                raise Unsupported("indexing")
+                self.eat()
+                idx = self.expr()
+                self.eat("]")
+                e = ("index", e, idx)
             else:
                 return e
 
@@ -341,16 +344,18 @@ CTORS = {
     "Asset::Null": ("casset", "ANull"), "Asset::Explicit": ("casset", "AExplicit _"), "Asset::Confidential": ("casset", "AConf _"),
     "Nonce::Null": ("cnonce", "NNull"), "Nonce::Explicit": ("cnonce", "NExplicit _"), "Nonce::Confidential": ("cnonce", "NConf _"),
 }
-RUST_TYPE = {"Transaction": "tx", "TxIn": "txin", "TxOut": "txout", "TxInWitness": "inwit", "TxOutWitness": "outwit", "AssetIssuance": "issuance",
+CONSTS = {"MAX_SCRIPT_SIZE": ("MAX_SCRIPT_SIZE", "N")}      # free constants that Gen/Tables.v already carries
+RUST_TYPE = {"Script": "script", "Transaction": "tx", "TxIn": "txin", "TxOut": "txout", "TxInWitness": "inwit", "TxOutWitness": "outwit", "AssetIssuance": "issuance",
              "Value": "cvalue", "Asset": "casset", "Nonce": "cnonce", "Block": "block", "VarInt": "varint"}
 COQ_TYPE = {"tx": "tx", "txin": "txin", "txout": "txout", "inwit": "inwit", "outwit": "outwit", "issuance": "issuance", "cvalue": "cvalue",
-            "casset": "casset", "cnonce": "cnonce", "block": "block", "N": "N", "bool": "bool", "bytes": "bytes", "varint": "N"}
+            "casset": "casset", "cnonce": "cnonce", "block": "block", "N": "N", "bool": "bool", "bytes": "bytes", "varint": "N", "script": "bytes"}
 
 
 class Emitter:
     def __init__(self, fns):
         self.fns = fns          # (type, method) -> (coq name, [param types], ret type, extra leading coq args)
         self.varint_size = "vi_size"
+        self.safe = set()       # coq names that have a generated <name>_safe
 
     def ty_of_ret(self, s):
         s = s.strip()
@@ -370,11 +375,23 @@ class Emitter:
         if k == "path":
             if x[1] in env:
                 return env[x[1]]
+            m = re.fullmatch(r"opcodes::all::(OP_[A-Za-z0-9_]+)", x[1])
+            if m:
+                return m.group(1), "opcode"          # the byte value, a constant of Gen/Tables.v (regenerated from src/opcodes.rs)
+            if x[1] in CONSTS:
+                return CONSTS[x[1]]
             raise Unsupported("unknown name %s" % x[1])
+        if k == "index":
+            r, t = self.e(x[1], env)
+            i, ti = self.e(x[2], env)
+            self.want(t, "bytes"); self.want(ti, "N")
+            return "(at_ %s %s)" % (r, ("%s%%nat" % i) if i.isdigit() else "(N.to_nat %s)" % i), "N"
         if k == "field":
             r, t = self.e(x[1], env)
             if t == "varint" and x[2] == "0":
                 return r, "N"
+            if t == "script" and x[2] == "0":
+                return r, "bytes"
             if (t, x[2]) not in FIELDS:
                 raise Unsupported("field %s of %s" % (x[2], t))
             acc, ft = FIELDS[(t, x[2])]
@@ -394,6 +411,8 @@ class Emitter:
                 self.want(ta, "bool"); self.want(tb, "bool")
                 return "(%s %s %s)" % (a, op, b), "bool"
             if op in ("==", "!=", "<", "<=", ">", ">="):
+                if ta == "opcode" and tb == "opcode" and op in ("==", "!="):
+                    ta = tb = "N"
                 self.want(ta, "N"); self.want(tb, "N")
                 c = {"==": "(%s =? %s)", "!=": "(negb (%s =? %s))", "<": "(%s <? %s)", "<=": "(%s <=? %s)", ">": "(%s <? %s)", ">=": "(%s <=? %s)"}[op]
                 return (c % ((b, a) if op in (">", ">=") else (a, b))), "bool"
@@ -447,6 +466,10 @@ class Emitter:
                 if ta == "header":
                     return "(enc (c_header maxvec cap_vecu8) %s)" % a, "bytes"
                 raise Unsupported("serialize of %s" % ta)
+            if name == "opcodes::All::from" and len(args) == 1:
+                a, ta = self.e(args[0], env)
+                self.want(ta, "N")
+                return a, "opcode"
             raise Unsupported("call of %s" % name)
         if k == "mcall":
             return self.mcall(x, env)
@@ -476,6 +499,10 @@ class Emitter:
         _, recv, name, args = x
         r, t = self.e(recv, env)
         islist = isinstance(t, tuple) and t[0] == "list"
+        if name == "into_u8" and t == "opcode" and not args:
+            return r, "N"
+        if name in ("len", "is_empty") and t == "script" and not args and (t, name) not in self.fns:
+            t = "bytes"
         if name == "len" and not args:
             if t == "bytes":
                 return "(blen %s)" % r, "N"
@@ -527,6 +554,114 @@ class Emitter:
                 aa.append(s)
             return "(%s%s %s%s)" % (coq, lead, r, "".join(" " + a for a in aa)), rt
         raise Unsupported("method %s on %s" % (name, t))
+
+    # ------------------------------------------------------------------------------------ safety conditions (no-panic obligations)
+    # ok(x) is a Gallina boolean that is true exactly when evaluating x (left to right, && and || short-circuiting, as Rust does) performs
+    # no out-of-bounds index, no usize subtraction below zero (a panic in builds with overflow checks) and no division by zero.
+    @staticmethod
+    def conj(*cs):
+        cs = [c for c in cs if c != "true"]
+        if not cs:
+            return "true"
+        out = cs[0]
+        for c in cs[1:]:
+            out = "(%s && %s)" % (out, c)
+        return out
+
+    def ok(self, x, env):
+        k = x[0]
+        if k in ("num", "bool", "path"):
+            return "true"
+        if k == "field":
+            return self.ok(x[1], env)
+        if k == "not":
+            return self.ok(x[1], env)
+        if k == "index":
+            r, _ = self.e(x[1], env)
+            i, _ = self.e(x[2], env)
+            return self.conj(self.ok(x[1], env), self.ok(x[2], env), "(%s <? blen %s)" % (i, r))
+        if k == "bin":
+            op = x[1]
+            oa, ob = self.ok(x[2], env), self.ok(x[3], env)
+            a, _ = self.e(x[2], env)
+            b, _ = self.e(x[3], env)
+            if op == "&&":
+                return self.conj(oa, "true" if ob == "true" else "(if %s then %s else true)" % (a, ob))
+            if op == "||":
+                return self.conj(oa, "true" if ob == "true" else "(if %s then true else %s)" % (a, ob))
+            if op == "-":
+                return self.conj(oa, ob, "(%s <=? %s)" % (b, a))
+            if op == "/":
+                return self.conj(oa, ob, "(negb (%s =? 0))" % b)
+            return self.conj(oa, ob)
+        if k == "if":
+            c, _ = self.e(x[1], env)
+            oa = self.ok(x[2], env)
+            ob = self.ok(x[3], env) if x[3] is not None else "true"
+            return self.conj(self.ok(x[1], env), "true" if oa == ob == "true" else "(if %s then %s else %s)" % (c, oa, ob))
+        if k == "block":
+            return self.ok_stmts(x[1], env, (lambda e2: self.ok(x[2], e2)) if x[2] is not None else (lambda e2: "true"))
+        if k == "match":
+            s_, ts = self.e(x[1], env)
+            if any(p[0] == "range" for p, _ in x[2]):
+                out = self.ok(x[2][-1][1], env)
+                for pat, body in reversed(x[2][:-1]):
+                    ob = self.ok(body, env)
+                    out = "true" if ob == out == "true" else "(if (%d <=? %s) && (%s <=? %d) then %s else %s)" % (pat[1], s_, s_, pat[2], ob, out)
+                return self.conj(self.ok(x[1], env), out)
+            arms = [(("_" if pat[0] == "wild" else CTORS[pat[1]][1]), self.ok(body, env)) for pat, body in x[2]]
+            inner = "true" if all(o == "true" for _, o in arms) else "(match %s with %s end)" % (s_, " | ".join("%s => %s" % a for a in arms))
+            return self.conj(self.ok(x[1], env), inner)
+        if k == "call":
+            return self.conj(*[self.ok(a, env) for a in x[2]])
+        if k == "mcall":
+            _, recv, name, args = x
+            r, t = self.e(recv, env)
+            islist = isinstance(t, tuple) and t[0] == "list"
+            orecv = self.ok(recv, env)
+            if name in ("map", "any", "all") and islist and len(args) == 1 and args[0][0] == "closure":
+                v = args[0][1][0]
+                env2 = dict(env); env2[v] = (v, t[1])
+                ob = self.ok(args[0][2], env2)
+                # for the short-circuiting any / all this asks the closure to be safe on EVERY element: sufficient, not necessary
+                return self.conj(orecv, "true" if ob == "true" else "(forallb (fun %s => %s) %s)" % (v, ob, r))
+            if name in ("map", "any", "all") and islist and len(args) == 1 and args[0][0] == "path":
+                parts = args[0][1].split("::")
+                coq, ptys, rt, lead = self.fns[(t[1], parts[1])]
+                if coq not in self.safe:
+                    raise Unsupported("callee %s has no safety condition" % coq)
+                return self.conj(orecv, "(forallb %s_safe%s %s)" % (coq, lead, r))
+            if name == "map_or" and t == "optbytes" and len(args) == 2:
+                v = args[1][1][0]
+                env2 = dict(env); env2[v] = (v, "bytes")
+                od, ob = self.ok(args[0], env), self.ok(args[1][2], env2)
+                return self.conj(orecv, "true" if od == ob == "true" else "(match %s with None => %s | Some %s => %s end)" % (r, od, v, ob))
+            oargs = [self.ok(a, env) for a in args if a[0] != "closure"]
+            if name == "div_ceil":
+                a, _ = self.e(args[0], env)
+                return self.conj(orecv, *oargs, "(negb (%s =? 0))" % a)
+            tt = "bytes" if (t == "script" and name in ("len", "is_empty") and (t, name) not in self.fns) else t
+            if t == "varint" and name == "size" and self.varint_size == "vi_size":
+                return self.conj(orecv, *oargs)          # rust-bitcoin's VarInt::size: a dependency, total
+            if (tt, name) in self.fns:
+                coq, ptys, rt, lead = self.fns[(tt, name)]
+                if coq not in self.safe:
+                    raise Unsupported("callee %s has no safety condition" % coq)
+                aa = [self.e(a, env)[0] for a in args]
+                return self.conj(orecv, *oargs, "(%s_safe%s %s%s)" % (coq, lead, r, "".join(" " + a for a in aa)))
+            return self.conj(orecv, *oargs)
+        raise Unsupported("safety condition of expression form %s" % k)
+
+    def ok_stmts(self, stmts, env, tail):
+        if not stmts:
+            return tail(env)
+        st, rest = stmts[0], stmts[1:]
+        if st[0] == "let":
+            v, t = self.e(st[2], env)
+            env2 = dict(env); env2[st[1]] = (st[1], t)
+            r = self.ok_stmts(rest, env2, tail)
+            return self.conj(self.ok(st[2], env), "true" if r == "true" else "(let %s := %s in %s)" % (st[1], v, r))
+        raise Unsupported("safety condition of a function with assignments or loops")
 
     def assigned(self, stmts):
         s = set()
@@ -591,7 +726,7 @@ class Emitter:
         return self.stmts(b[1], env, lambda e2: self.e(b[2], e2))
 
 
-def translate_fn(em, text, impl_re, rust_type, name, coq_name, lead_params=""):
+def translate_fn(em, text, impl_re, rust_type, name, coq_name, lead_params="", safety="optional"):
     """-> Gallina Definition text; registers the function in em.fns"""
     params, ret, body = find_fn(text, impl_re, name)
     self_t = RUST_TYPE[rust_type]
@@ -614,4 +749,13 @@ def translate_fn(em, text, impl_re, rust_type, name, coq_name, lead_params=""):
     g, t = em.block(ast, env)
     em.want(t, rt)
     em.fns[(self_t, name)] = (coq_name, ptys, rt, lead_params)
-    return "Definition %s %s : %s :=\n  %s." % (coq_name, " ".join(sig), rt, g)
+    out = "Definition %s %s : %s :=\n  %s." % (coq_name, " ".join(sig), rt, g)
+    if safety:
+        try:
+            out += "\nDefinition %s_safe %s : bool :=\n  %s." % (coq_name, " ".join(sig), em.ok(ast, env))
+            em.safe.add(coq_name)
+        except Unsupported as e:
+            if safety == "required":
+                raise
+            out += "\n(* no safety condition generated for %s: %s *)" % (coq_name, e)
+    return out
